@@ -55,12 +55,14 @@ X2 == X(2)
 R(n, d)  == Rat(n, d)
 Dy(k, m) == Rat(k, 2^m)            \* dyadic rational k / 2^m
 PtOf(r)  == <<r.n, r.d>>
+RAbs2(r) == [n |-> RAbs(r.n), d |-> r.d]
 (* raw (non-folding) constructors: the driver's arithmetic is exact anyway *)
 AddR(a, b) == <<"b", "add", a, b>>
 SubR(a, b) == <<"b", "sub", a, b>>
 MulR(a, b) == <<"b", "mul", a, b>>
 DivR(a, b) == <<"b", "div", a, b>>
 PowR(a, b) == <<"b", "pow", a, b>>
+P2(k) == PowR(Two, QI(k))
 Mag2(a, b)    == AddR(Abs(a), Abs(b))
 Mag3(a, b, c) == AddR(Mag2(a, b), Abs(c))
 
@@ -154,9 +156,15 @@ Rg(lo, hi, bits) == [lo |-> PtOf(lo), hi |-> PtOf(hi), bits |-> bits]
 (* FAMILIES.  Every family has a name, a bound K (units of 2^-52 * scale),  *)
 (* a number of cases Count and a case constructor.                          *)
 (* ======================================================================= *)
+(* K: measured on the repaired library (docs/C13.md lists the largest residual of every family; K is at   *)
+(* least ten times that)                                                                                 *)
 KOf(fam) ==
   CASE fam \in {"factorial.table", "bernoulli.zero", "zeta.negzero"} -> 0
     [] fam \in {"bernoulli.exact"} -> 1
+    [] fam \in {"besseli.half", "zeta.sum", "gammap.rec", "logbesseli.rec", "gamma.dup", "gammad1.int", "gammap.int", "lgamma.log",
+                "digamma.rec", "gammad1.half", "lgamma.rec"} -> 128
+    [] fam \in {"logbesseli.half", "logbesseli.log", "gamma.rec", "gamma.refl"} -> 256
+    [] fam \in {"gammap.d1", "gammap.lowerp", "gammap.upperq"} -> 512
     [] OTHER -> 64
 
 (* ---------------------------------------------------------------- Factorial *)
@@ -246,6 +254,21 @@ SchemaRec(fam, K, nvars, lhs, rhs, scale, slack, dom, guard) ==
   [kind |-> "schema", fam |-> fam, K |-> K, nvars |-> nvars, lhs |-> lhs, rhs |-> rhs, scale |-> scale,
    slack |-> slack, dom |-> dom, guard |-> guard]
 InstCase(S, pt, br) == EqRec(S.fam, S.K, pt, Inst(S.lhs, pt), Inst(S.rhs, pt), Inst(S.scale, pt), Inst(S.slack, pt), br)
+(* a point of the regular grid: the driver skips it when a guard of the schema is not positive there *)
+GridCase(S, pt) == InstCase(S, pt, "grid") @@ [guard |-> InstSeq(S.guard, pt)]
+(* the t-th of n equidistant points of a range, rounded down to the range's dyadic resolution *)
+GridCoord(rg, t, n) == LET lo == Rat(rg.lo[1], rg.lo[2])
+                           hi == Rat(rg.hi[1], rg.hi[2])
+                           w  == RMul(RMul(RSub(hi, lo), RInt(2^rg.bits)), Rat(t, n))
+                       IN RAdd(lo, Dy(w.n \div w.d, rg.bits))
+(* 1 variable: n points per box; 2 variables: m x m points per box (t runs over the half-open grid t + 1/2) *)
+GridCount(S, n, m) == IF S.nvars = 1 THEN Len(S.dom) * n ELSE Len(S.dom) * m * m
+GridPoint(S, j, n, m) ==
+  IF S.nvars = 1
+  THEN LET box == S.dom[((j - 1) \div n) + 1]  t == (j - 1) % n IN <<GridCoord(box[1], 2 * t + 1, 2 * n)>>
+  ELSE LET box == S.dom[((j - 1) \div (m * m)) + 1]
+           t   == (j - 1) % (m * m)
+       IN <<GridCoord(box[1], 2 * (t \div m) + 1, 2 * m), GridCoord(box[2], 2 * (t % m) + 1, 2 * m)>>
 (* distance from the integers: sin^2(pi x) - 1/1000 > 0 *)
 AwayFromIntegers(x) == SubR(PowR(Sin(MulR(Pi, x)), Two), QF(1, 1000))
 XP1   == AddR(X1, One)
@@ -253,7 +276,7 @@ XPH   == AddR(X1, Half)
 OneMX == SubR(One, X1)
 TwoX  == MulR(Two, X1)
 (* sequences of dyadic points k / 2^m *)
-DySeq(ks, m) == [j \in 1..Len(ks) |-> <<Dy(ks[j], m)>>]
+DySeq(ks, m) == TLCEval([j \in 1..Len(ks) |-> <<Dy(ks[j], m)>>])
 
 (* ------------------------------------------------------------------ Digamma *)
 (* implementation: x <= -1 reflection (pi / tan); poles at 0, -1, -2, ...; x >= 10 asymptotic series;   *)
@@ -476,12 +499,14 @@ GIntS(what, a) ==
       d  == DivR(MulR(PowR(X1, QI(a - 1)), EmX), FactT(a - 1))
       dom == << <<Rg(Dy(1, 4), RInt(3 * a + 10), 6)>>, <<Rg(RInt(3 * a + 10), RInt(600), 2)>> >>
       mk(l, r, sc) == SchemaRec(NameN("gamma" \o what \o ".int", a), KOf("gamma" \o what \o ".int"), 1, l, r, sc, Zero, dom, <<>>)
-  IN CASE what = "p"  -> mk(GPL(QI(a), X1), pp, Abs(pp))
-       [] what = "q"  -> mk(GQL(QI(a), X1), q, q)
-       [] what = "lower" -> mk(GLL(QI(a), X1), MulR(FactT(a - 1), pp), Abs(MulR(FactT(a - 1), pp)))
-       [] what = "upper" -> mk(GUL(QI(a), X1), MulR(FactT(a - 1), q), MulR(FactT(a - 1), q))
-       [] what = "d1" -> mk(GD1(QI(a), X1), d, d)
-       [] what = "d2" -> mk(GD2(QI(a), X1), MulR(d, SubR(DivR(QI(a - 1), X1), One)), MulR(d, AddR(DivR(QI(a - 1), X1), One)))
+      cx == MulR(X1, d)                                            \* x dP/dx: sensitivity to a relative change of x
+      cd == AddR(AddR(One, Abs(SubR(QI(a - 1), X1))), MulR(QI(a), Abs(Log(DivR(X1, QI(a))))))   \* conditioning of P' in x and a
+  IN CASE what = "p"  -> mk(GPL(QI(a), X1), pp, AddR(Abs(pp), cx))
+       [] what = "q"  -> mk(GQL(QI(a), X1), q, AddR(q, cx))
+       [] what = "lower" -> mk(GLL(QI(a), X1), MulR(FactT(a - 1), pp), MulR(FactT(a - 1), AddR(Abs(pp), cx)))
+       [] what = "upper" -> mk(GUL(QI(a), X1), MulR(FactT(a - 1), q), MulR(FactT(a - 1), AddR(q, cx)))
+       [] what = "d1" -> mk(GD1(QI(a), X1), d, MulR(d, cd))
+       [] what = "d2" -> mk(GD2(QI(a), X1), MulR(d, SubR(DivR(QI(a - 1), X1), One)), MulR(MulR(d, AddR(DivR(QI(a - 1), X1), One)), cd))
 PosOnly(ks) == SelectSeq(ks, LAMBDA k : k > 0)
 GIntP(a) == DySeq(PosOnly(<<2, 8, 14, 16, 19, 20, 32, 35, 36, 64, 32 * a - 36, 32 * a - 32, 32 * a - 28, 32 * a, 32 * a + 32, 19 * a, 45 * a, 64 * a,
                             128 * a + 32, 3200, 19200>>), 5)
@@ -496,9 +521,11 @@ GHalfS(what, m) ==
       d  == DivR(MulR(PowR(X1, QF(2 * m - 1, 2)), EmX), GammaHalfT(m))
       dom == << <<Rg(Dy(1, 4), RInt(3 * m + 10), 6)>>, <<Rg(RInt(3 * m + 10), RInt(600), 2)>> >>
       mk(l, r, sc) == SchemaRec(NameN("gamma" \o what \o ".half", m), KOf("gamma" \o what \o ".half"), 1, l, r, sc, Zero, dom, <<>>)
-  IN CASE what = "p"  -> mk(GPL(a, X1), pp, Abs(pp))
-       [] what = "q"  -> mk(GQL(a, X1), q, q)
-       [] what = "d1" -> mk(GD1(a, X1), d, d)
+      cx == MulR(X1, d)
+      cd == AddR(AddR(One, Abs(SubR(QF(2 * m - 1, 2), X1))), MulR(a, Abs(Log(DivR(X1, a)))))
+  IN CASE what = "p"  -> mk(GPL(a, X1), pp, AddR(Abs(pp), cx))
+       [] what = "q"  -> mk(GQL(a, X1), q, AddR(q, cx))
+       [] what = "d1" -> mk(GD1(a, X1), d, MulR(d, cd))
 GHalfP(m) == DySeq(PosOnly(<<2, 5, 6, 7, 8, 16, 32, 35, 36, 64, 32 * m - 20, 32 * m - 16, 32 * m - 12, 32 * m + 16, 32 * m + 48, 19 * m + 9, 45 * m + 22,
                              64 * m + 32, 128 * m + 96, 3200, 19200>>), 5)
 (* general (a, x): complements and recurrences between library values *)
@@ -507,33 +534,44 @@ GX == X2
 GDom == << <<Rg(Dy(1, 4), RInt(40), 4), Rg(Dy(1, 4), RInt(80), 4)>>, <<Rg(RInt(40), RInt(160), 2), Rg(RInt(20), RInt(400), 2)>> >>
 GDomBig == GDom \o << <<Rg(RInt(160), RInt(300), 2), Rg(RInt(100), RInt(600), 2)>> >>
 GammaRawT == DivR(MulR(PowR(GX, SubR(GA, One)), Exp(Neg(GX))), GamL(GA))      \* x^(a-1) e^-x / Gamma(a), Gamma from the library
+GammaCond == AddR(AddR(One, Abs(SubR(SubR(GA, One), GX))), MulR(GA, Abs(Log(DivR(GX, GA)))))    \* conditioning of x^(a-1) e^-x / Gamma(a) in x and a
 GammaPQS  == SchemaRec("gammap.pq", KOf("gammap.pq"), 2, AddR(GPL(GA, GX), GQL(GA, GX)), One, One, Zero, GDomBig, <<>>)
 GammaLUS  == SchemaRec("gammap.lu", KOf("gammap.lu"), 2, AddR(GLL(GA, GX), GUL(GA, GX)), GamL(GA), Abs(GamL(GA)), Zero, GDom, <<>>)
-GammaLPS  == SchemaRec("gammap.lowerp", KOf("gammap.lowerp"), 2, GLL(GA, GX), MulR(GPL(GA, GX), GamL(GA)), Abs(GLL(GA, GX)), Zero, GDom, <<>>)
-GammaUQS  == SchemaRec("gammap.upperq", KOf("gammap.upperq"), 2, GUL(GA, GX), MulR(GQL(GA, GX), GamL(GA)), Abs(GUL(GA, GX)), Zero, GDom, <<>>)
+(* lower = P Gamma(a), upper = Q Gamma(a): conditioning of the prefix x^a e^-x in x and a; P may be subnormal where lower is not *)
+GammaLPS  == SchemaRec("gammap.lowerp", KOf("gammap.lowerp"), 2, GLL(GA, GX), MulR(GPL(GA, GX), GamL(GA)),
+                       AddR(MulR(Abs(GLL(GA, GX)), GammaCond), MulR(Abs(GamL(GA)), P2(-1022))), Zero, GDom, <<>>)
+GammaUQS  == SchemaRec("gammap.upperq", KOf("gammap.upperq"), 2, GUL(GA, GX), MulR(GQL(GA, GX), GamL(GA)),
+                       AddR(MulR(Abs(GUL(GA, GX)), GammaCond), MulR(Abs(GamL(GA)), P2(-1022))), Zero, GDom, <<>>)
 GammaRecPS == LET a1 == AddR(GA, One) IN
-  SchemaRec("gammap.rec", KOf("gammap.rec"), 2, SubR(GPL(GA, GX), GPL(a1, GX)), GD1(a1, GX), Mag3(GPL(GA, GX), GPL(a1, GX), GD1(a1, GX)), Zero, GDomBig, <<>>)
-GammaD1S  == SchemaRec("gammap.d1", KOf("gammap.d1"), 2, GD1(GA, GX), GammaRawT, Abs(GammaRawT), Zero, GDom, <<>>)
+  SchemaRec("gammap.rec", KOf("gammap.rec"), 2, SubR(GPL(GA, GX), GPL(a1, GX)), GD1(a1, GX),
+            AddR(Mag2(GPL(GA, GX), GPL(a1, GX)), MulR(Abs(GD1(a1, GX)), GammaCond)), Zero, GDomBig, <<>>)
+GammaD1S  == SchemaRec("gammap.d1", KOf("gammap.d1"), 2, GD1(GA, GX), GammaRawT, MulR(Abs(GammaRawT), GammaCond), Zero, GDom, <<>>)
 GammaD2S  == SchemaRec("gammap.d2", KOf("gammap.d2"), 2, GD2(GA, GX), MulR(GammaRawT, SubR(DivR(SubR(GA, One), GX), One)),
-                       MulR(Abs(GammaRawT), AddR(Abs(DivR(SubR(GA, One), GX)), One)), Zero, GDom, <<>>)
+                       MulR(MulR(AddR(Abs(GammaRawT), P2(-1022)), AddR(Abs(DivR(SubR(GA, One), GX)), One)), GammaCond), Zero, GDom, <<>>)
 GAsSmall == <<Dy(1, 3), Dy(1, 2), Dy(1, 1), Dy(3, 2), RInt(1), Dy(5, 2), Dy(3, 1), RInt(2), Dy(5, 1), Dy(13, 2), RInt(5), Dy(39, 2), RInt(10),
               Dy(41, 2), Dy(39, 1), RInt(20), Dy(41, 1), RInt(25), Dy(59, 1), RInt(30), Dy(61, 1), RInt(50), RInt(100), RInt(150), Dy(339, 1)>>
 GAsBig   == <<RInt(171), RInt(199), RInt(201), RInt(250)>>
 (* x grid for a given a: fixed small points and multiples / shifts of a on both sides of every changeover *)
-GXsFor(a) == <<Dy(1, 4), Dy(7, 4), Dy(1, 1), Dy(9, 4), RInt(1), Dy(17, 4), Dy(9, 3)>> \o
-             [j \in 1..14 |-> RMul(a, <<Dy(1, 1), Dy(19, 5), Dy(39, 6), Dy(11, 4), Dy(3, 2), RInt(1), Dy(5, 2), Dy(21, 4), Dy(89, 6), Dy(45, 5),
-                                        RInt(2), RInt(4), Dy(7, 3), Dy(9, 3)>>[j])] \o
-             <<RAdd(a, ROne), RAdd(a, Dy(1, 3)), RAdd(RMul(RInt(4), a), ROne)>> \o
-             (IF RLt(ROne, a) THEN <<RSub(a, ROne)>> ELSE <<>>)
-RECURSIVE GPairs(_, _)
-GPairs(as, k) == IF k > Len(as) THEN <<>>
-                 ELSE [j \in 1..Len(GXsFor(as[k])) |-> <<as[k], GXsFor(as[k])[j]>>] \o GPairs(as, k + 1)
-GPointsSmall == GPairs(GAsSmall, 1)
-GPointsAll   == GPointsSmall \o GPairs(GAsBig, 1)
+GXMul == <<Dy(1, 1), Dy(19, 5), Dy(39, 6), Dy(11, 4), Dy(3, 2), RInt(1), Dy(5, 2), Dy(21, 4), Dy(89, 6), Dy(45, 5), RInt(2), RInt(4), Dy(7, 3), Dy(9, 3)>>
+GXFix == <<Dy(1, 4), Dy(7, 4), Dy(1, 1), Dy(9, 4), RInt(1), Dy(17, 4), Dy(9, 3)>>
+GNX == 25
+GXAt(a, j) == IF j <= 7 THEN GXFix[j]
+              ELSE IF j <= 21 THEN RMul(a, GXMul[j - 7])
+              ELSE IF j = 22 THEN RAdd(a, ROne)
+              ELSE IF j = 23 THEN RAdd(a, Dy(1, 3))
+              ELSE IF j = 24 THEN RAdd(RMul(RInt(4), a), ROne)
+              ELSE IF RLt(ROne, a) THEN RSub(a, ROne) ELSE RMul(a, Dy(1, 2))
+GAsAll == GAsSmall \o GAsBig
+GPointAt(k) == LET a == GAsAll[((k - 1) \div GNX) + 1] IN <<a, GXAt(a, ((k - 1) % GNX) + 1)>>
+GCountSmall == Len(GAsSmall) * GNX
+GCountAll   == Len(GAsAll) * GNX
 (* x below the unit roundoff: P(a, x) = x^a/Gamma(a+1) (1 - a x/(a+1) + O(x^2)) *)
 GammaTiny(a) == LET x == PowR(Two, QI(-60))
                     t == MulR(DivR(PowR(x, QI(a)), FactT(a)), SubR(One, DivR(MulR(QI(a), x), QI(a + 1))))
   IN EqRec("gammap.tiny", KOf("gammap.tiny"), <<RInt(a)>>, GPL(QI(a), x), t, t, MulR(t, PowR(x, Two)), IF a > 1 THEN "leading term" ELSE "series")
+GammaLowerTiny(a) == LET x == PowR(Two, QI(-60))
+                         t == MulR(DivR(PowR(x, QI(a)), QI(a)), SubR(One, DivR(MulR(QI(a), x), QI(a + 1))))
+  IN EqRec("gammalower.tiny", KOf("gammap.tiny"), <<RInt(a)>>, GLL(QI(a), x), t, t, MulR(t, PowR(x, Two)), IF a > 1 THEN "leading term" ELSE "series")
 (* edges x = 0 *)
 GammaEdgeList == <<
   [fn |-> "GammaP", a |-> Dy(1, 1), v |-> 0], [fn |-> "GammaP", a |-> RInt(1), v |-> 0], [fn |-> "GammaP", a |-> Dy(5, 1), v |-> 0],
@@ -587,7 +625,9 @@ BesAB(n) == IF n = 0 THEN <<One, Zero>> ELSE IF n = -1 THEN <<Zero, One>>
                  IN <<Add(pp[1], Mul(c, p[1])), Add(pp[2], Mul(c, p[2]))>>
 BesHalfT(n) == MulR(Sqrt(DivR(Two, MulR(Pi, X1))), AddR(MulR(BesAB(n)[1], Sinh(X1)), MulR(BesAB(n)[2], Cosh(X1))))
 BesHalfNs == <<-5, -4, -3, -2, -1, 0, 1, 2, 3, 4>>
-BesHalfS(n) == SchemaRec(NameN("besseli.half", n + 5), KOf("besseli.half"), 1, BIL(QF(2 * n + 1, 2), X1), BesHalfT(n), Abs(BesHalfT(n)), Zero,
+(* orders below -1/2 have zeros (I_v = I_-v + (2/pi) sin(-v pi) K_-v changes sign): the scale is the sum of the magnitudes *)
+BesHalfScale(n) == IF n >= -1 THEN Abs(BesHalfT(n)) ELSE AddR(Abs(BesHalfT(n)), MulR(Two, Abs(BesHalfT(0 - n - 1))))
+BesHalfS(n) == SchemaRec(NameN("besseli.half", n + 5), KOf("besseli.half"), 1, BIL(QF(2 * n + 1, 2), X1), BesHalfT(n), BesHalfScale(n), Zero,
                          << <<Rg(Dy(1, 4), RInt(20), 6)>>, <<Rg(RInt(20), RInt(700), 2)>> >>, <<>>)
 LogBesHalfS(n) == SchemaRec(NameN("logbesseli.half", n + 5), KOf("logbesseli.half"), 1, LBIL(QF(2 * n + 1, 2), X1), Log(Abs(BesHalfT(n))),
                             AddR(Abs(Log(Abs(BesHalfT(n)))), One), Zero,
@@ -607,15 +647,19 @@ BesRecS == LET c == MulR(DivR(MulR(Two, BV), BX), BIL(BV, BX)) IN
 BesVs == <<Dy(-5, 1), RInt(-1), Dy(-1, 2), Dy(1, 2), Dy(1, 1), Dy(3, 2), RInt(1), Dy(5, 2), Dy(3, 1), RInt(2), Dy(5, 1), RInt(3), Dy(15, 2), Dy(9, 1),
            RInt(8), Dy(41, 2), Dy(41, 1), RInt(50)>>
 BesXs == <<Dy(1, 4), Dy(1, 2), Dy(1, 1), RInt(1), Dy(127, 6), RInt(2), Dy(129, 6), RInt(4), Dy(31, 2), RInt(8), RInt(20), RInt(100), RInt(101), RInt(300), RInt(600)>>
-BesXsFor(v) == BesXs \o (IF RLt(RZero, v) THEN <<RSub(RDiv(RAdd(v, ROne), RInt(4)), Dy(1, 6)), RAdd(RDiv(RAdd(v, ROne), RInt(4)), Dy(1, 6))>> ELSE <<>>)
-RECURSIVE BesPairs(_, _, _)
-BesPairs(vs, k, big) == IF k > Len(vs) THEN <<>>
-                        ELSE LET xs == BesXsFor(vs[k]) \o big IN [j \in 1..Len(xs) |-> <<vs[k], xs[j]>>] \o BesPairs(vs, k + 1, big)
-BesRecP == BesPairs(BesVs, 1, <<>>)
+BesNX == Len(BesXs) + 2
+(* the power series is used below x = v/4: both sides of the changeover of the order v + 1 *)
+BesXAt(v, j, big) == IF j <= Len(BesXs) THEN BesXs[j]
+                     ELSE IF j = Len(BesXs) + 1 THEN RSub(RDiv(RAdd(RAbs2(v), ROne), RInt(4)), Dy(1, 6))
+                     ELSE IF j = Len(BesXs) + 2 THEN RAdd(RDiv(RAdd(RAbs2(v), ROne), RInt(4)), Dy(1, 6))
+                     ELSE big[j - BesNX]
+BesPointAt(vs, big, k) == LET nx == BesNX + Len(big)
+                              v  == vs[((k - 1) \div nx) + 1]
+                          IN <<v, BesXAt(v, ((k - 1) % nx) + 1, big)>>
+BesCount(vs, big) == Len(vs) * (BesNX + Len(big))
 LogBesLogS == SchemaRec("logbesseli.log", KOf("logbesseli.log"), 2, LBIL(BV, BX), Log(BIL(BV, BX)), AddR(Abs(LBIL(BV, BX)), One), Zero,
                         << <<Rg(RInt(0), RInt(12), 4), Rg(Dy(1, 4), RInt(40), 4)>>, <<Rg(RInt(0), RInt(60), 2), Rg(RInt(1), RInt(600), 2)>> >>, <<>>)
 BesVsPos == <<RInt(0), Dy(1, 2), Dy(1, 1), Dy(3, 2), RInt(1), Dy(5, 2), Dy(3, 1), RInt(2), Dy(5, 1), RInt(3), Dy(15, 2), Dy(9, 1), RInt(8), Dy(41, 2), Dy(41, 1), RInt(50)>>
-LogBesLogP == BesPairs(BesVsPos, 1, <<>>)
 LogBesRecS == LET lm == LBIL(SubR(BV, One), BX)  l0 == LBIL(BV, BX)  lp == LBIL(AddR(BV, One), BX)
                   e1 == Exp(SubR(lm, l0))  e2 == Exp(SubR(lp, l0)) IN
   SchemaRec("logbesseli.rec", KOf("logbesseli.rec"), 2, SubR(e1, e2), DivR(MulR(Two, BV), BX),
@@ -623,14 +667,14 @@ LogBesRecS == LET lm == LBIL(SubR(BV, One), BX)  l0 == LBIL(BV, BX)  lp == LBIL(
             << <<Rg(RInt(1), RInt(12), 4), Rg(Dy(1, 4), RInt(40), 4)>>, <<Rg(RInt(1), RInt(60), 2), Rg(RInt(1), RInt(600), 2)>>,
                <<Rg(RInt(1), RInt(60), 2), Rg(RInt(600), RInt(100000), 0)>> >>, <<>>)
 BesVsGe1 == <<RInt(1), Dy(5, 2), Dy(3, 1), RInt(2), Dy(5, 1), RInt(3), Dy(15, 2), Dy(9, 1), RInt(8), Dy(41, 2), Dy(41, 1), RInt(50)>>
-LogBesRecP == BesPairs(BesVsGe1, 1, <<RInt(705), RInt(720), RInt(1000), RInt(7000), RInt(20000), RInt(1000000)>>)
+LogBesRecBig == <<RInt(705), RInt(720), RInt(1000), RInt(7000), RInt(20000), RInt(1000000)>>
 (* generating function e^x = I_0(x) + 2 sum_{k>=1} I_k(x); the tail beyond M is below 4 (x/2)^(M+1) e^x/(M+1)! *)
 BesGenM == 80
 BesGenXs == <<Dy(1, 2), RInt(1), RInt(2), RInt(5), Dy(15, 1), RInt(8), RInt(20), RInt(30)>>
 BesGen(x) == LET ts == [k \in 1..BesGenM |-> MulR(Two, BIL(QI(k), Q(x)))] IN
   EqRec("besseli.gen", KOf("besseli.gen"), <<x>>, AddR(BIL(Zero, Q(x)), SumR(ts)), Exp(Q(x)), Exp(Q(x)),
         MulR(QI(4), MulR(Exp(Q(x)), DivR(PowR(Q(RDiv(x, RInt(2))), QI(BesGenM + 1)), FactT(BesGenM + 1)))), "integer orders")
-BesNegIntS == SchemaRec("besseli.negint", 0, 2, BIL(Neg(BV), BX), BIL(BV, BX), Abs(BIL(BV, BX)), Zero,
+BesNegIntS == SchemaRec("besseli.negint", KOf("besseli.negint"), 2, BIL(Neg(BV), BX), BIL(BV, BX), Abs(BIL(BV, BX)), Zero,
                         << <<Rg(RInt(1), RInt(20), 0), Rg(Dy(1, 4), RInt(100), 4)>> >>, <<>>)
 BesNegIntP == << <<RInt(1), RInt(2)>>, <<RInt(2), Dy(1, 2)>>, <<RInt(3), RInt(10)>>, <<RInt(10), RInt(1)>>, <<RInt(7), RInt(300)>> >>
 (* edges x = 0 *)
@@ -684,7 +728,6 @@ LogInf(e) == EqRec("logadd.inf", 0, <<>>, e.l, e.r, Abs(e.r), Zero, "infinite op
 (*   nonfinite  a pole: NaN, an infinity or an error                          *)
 (*   undefined  outside the domain: NaN or an error, never a number           *)
 (*   finite / pinf / ninf                                                     *)
-P2(k) == PowR(Two, QI(k))
 ClassList == <<
   [fam |-> "class.gamma", fn |-> "Mgamma", args |-> <<Zero, One>>, want |-> "nonfinite"],
   [fam |-> "class.gamma", fn |-> "Mgamma", args |-> <<QI(-1), One>>, want |-> "nonfinite"],
@@ -790,4 +833,83 @@ ClassList == <<
   [fam |-> "class.logsub", fn |-> "LogSub", args |-> <<PInf, One>>, want |-> "pinf"]
 >>
 ClassCase(k) == LET c == ClassList[k] IN ClassRec(c.fam, <<>>, c.fn, c.args, c.want)
+
+(* ================================================================ catalogue *)
+(* identity families: blocks of (tag, number of parameter values); everything is looked up lazily *)
+Blocks == << <<"fixed", 30>>, <<"polyrec", Len(PolyNs)>>, <<"polyrefl", Len(PolyNs)>>, <<"polydup", Len(PolyNs)>>,
+             <<"mlgsum", 3>>, <<"mgammalog", 3>>,
+             <<"gint.p", Len(GIntAs)>>, <<"gint.q", Len(GIntAs)>>, <<"gint.lower", Len(GIntAs)>>, <<"gint.upper", Len(GIntAs)>>,
+             <<"gint.d1", Len(GIntAs)>>, <<"gint.d2", Len(GIntAs)>>,
+             <<"ghalf.p", Len(GHalfMs)>>, <<"ghalf.q", Len(GHalfMs)>>, <<"ghalf.d1", Len(GHalfMs)>>,
+             <<"beshalf", Len(BesHalfNs)>>, <<"logbeshalf", 6>> >>
+RECURSIVE BlockSum(_)
+BlockSum(b) == IF b = 0 THEN 0 ELSE BlockSum(b - 1) + Blocks[b][2]
+NIdFam == BlockSum(Len(Blocks))
+RECURSIVE Locate(_, _)
+Locate(ff, b) == IF ff <= Blocks[b][2] THEN <<Blocks[b][1], ff>> ELSE Locate(ff - Blocks[b][2], b + 1)
+
+FixedSchema(a) ==
+  CASE a = 1 -> DigammaRecS   [] a = 2 -> DigammaReflS  [] a = 3 -> DigammaDupS
+    [] a = 4 -> TrigammaRecS  [] a = 5 -> TrigammaReflS [] a = 6 -> TrigammaDupS
+    [] a = 7 -> GammaRecS     [] a = 8 -> GammaReflS    [] a = 9 -> GammaDupS
+    [] a = 10 -> LgammaRecS   [] a = 11 -> LgammaLogS
+    [] a = 12 -> PolyDelegateS(0) [] a = 13 -> PolyDelegateS(1)
+    [] a = 14 -> GammaPQS     [] a = 15 -> GammaRecPS   [] a = 16 -> GammaLUS  [] a = 17 -> GammaLPS
+    [] a = 18 -> GammaUQS     [] a = 19 -> GammaD1S     [] a = 20 -> GammaD2S
+    [] a = 21 -> LogErfcSmallS [] a = 22 -> LogErfcMidS
+    [] a = 23 -> BesRecS      [] a = 24 -> LogBesLogS   [] a = 25 -> LogBesRecS [] a = 26 -> BesNegIntS
+    [] a = 27 -> LogAddLinS   [] a = 28 -> LogSubLinS   [] a = 29 -> LogAddRatS [] a = 30 -> LogSubRatS
+FixedPoints(a) ==
+  CASE a = 1 -> DigammaRecP   [] a = 2 -> DigammaReflP  [] a = 3 -> DigammaDupP
+    [] a = 4 -> TrigammaRecP  [] a = 5 -> TrigammaReflP [] a = 6 -> TrigammaDupP
+    [] a = 7 -> GammaRecP     [] a = 8 -> GammaReflP    [] a = 9 -> GammaDupP
+    [] a = 10 -> LgammaRecP   [] a = 11 -> LgammaLogP
+    [] a = 12 -> PolyDelegateP [] a = 13 -> PolyDelegateP
+    [] a = 21 -> LogErfcSmallP [] a = 22 -> LogErfcMidP
+    [] a = 26 -> BesNegIntP
+    [] a = 27 -> LogAddLinP   [] a = 28 -> LogSubLinP   [] a = 29 -> RatPairs [] a = 30 -> RatSubPairs
+SchemaOf(tag, a) ==
+  CASE tag = "fixed"    -> FixedSchema(a)
+    [] tag = "polyrec"  -> PolyRecS(PolyNs[a])
+    [] tag = "polyrefl" -> PolyReflS(PolyNs[a])
+    [] tag = "polydup"  -> PolyDupS(PolyNs[a])
+    [] tag = "mlgsum"   -> MlgammaSumS(a + 1)
+    [] tag = "mgammalog" -> MgammaLogS(a + 1)
+    [] tag = "gint.p"   -> GIntS("p", GIntAs[a])
+    [] tag = "gint.q"   -> GIntS("q", GIntAs[a])
+    [] tag = "gint.lower" -> GIntS("lower", GIntAs[a])
+    [] tag = "gint.upper" -> GIntS("upper", GIntAs[a])
+    [] tag = "gint.d1"  -> GIntS("d1", GIntAs[a])
+    [] tag = "gint.d2"  -> GIntS("d2", GIntAs[a])
+    [] tag = "ghalf.p"  -> GHalfS("p", GHalfMs[a])
+    [] tag = "ghalf.q"  -> GHalfS("q", GHalfMs[a])
+    [] tag = "ghalf.d1" -> GHalfS("d1", GHalfMs[a])
+    [] tag = "beshalf"  -> BesHalfS(BesHalfNs[a])
+    [] tag = "logbeshalf" -> LogBesHalfS(a - 2)
+IsGAll(tag, a)   == tag = "fixed" /\ a \in {14, 15}
+IsGSmall(tag, a) == tag = "fixed" /\ a \in 16..20
+PointList(tag, a) ==
+  CASE tag = "fixed"    -> FixedPoints(a)
+    [] tag = "polyrec"  -> PolyRecP(PolyNs[a])
+    [] tag = "polyrefl" -> PolyReflP(PolyNs[a])
+    [] tag = "polydup"  -> PolyDupP(PolyNs[a])
+    [] tag = "mlgsum"   -> MlgammaSumP(a + 1)
+    [] tag = "mgammalog" -> MgammaLogP(a + 1)
+    [] tag \in {"gint.p", "gint.q", "gint.lower", "gint.upper", "gint.d1", "gint.d2"} -> GIntP(GIntAs[a])
+    [] tag \in {"ghalf.p", "ghalf.q", "ghalf.d1"} -> GHalfP(GHalfMs[a])
+    [] tag = "beshalf"  -> BesHalfP(BesHalfNs[a])
+    [] tag = "logbeshalf" -> LogBesHalfP(a - 2)
+PointCount(tag, a) ==
+  IF IsGAll(tag, a) THEN GCountAll ELSE IF IsGSmall(tag, a) THEN GCountSmall
+  ELSE IF tag = "fixed" /\ a = 23 THEN BesCount(BesVs, <<>>)
+  ELSE IF tag = "fixed" /\ a = 24 THEN BesCount(BesVsPos, <<>>)
+  ELSE IF tag = "fixed" /\ a = 25 THEN BesCount(BesVsGe1, LogBesRecBig)
+  ELSE Len(PointList(tag, a))
+PointAt(tag, a, k) ==
+  IF IsGAll(tag, a) \/ IsGSmall(tag, a) THEN GPointAt(k)
+  ELSE IF tag = "fixed" /\ a = 23 THEN BesPointAt(BesVs, <<>>, k)
+  ELSE IF tag = "fixed" /\ a = 24 THEN BesPointAt(BesVsPos, <<>>, k)
+  ELSE IF tag = "fixed" /\ a = 25 THEN BesPointAt(BesVsGe1, LogBesRecBig, k)
+  ELSE PointList(tag, a)[k]
+
 =============================================================================
